@@ -245,6 +245,14 @@ func (in *instr) rewrite() ([]byte, error) {
 			}}
 			c.Replace(&ast.BlockStmt{List: append(pre, &ast.ExprStmt{X: call})})
 		case *ast.SelectorExpr:
+			if in.isPkgIdent(n.X, "time") {
+				if to, ok := timeMap[n.Sel.Name]; ok {
+					in.needVrt = true
+					in.stats["time_virtual"]++
+					c.Replace(vrtSel(to))
+					return true
+				}
+			}
 			if in.isPkgIdent(n.X, "sync") {
 				switch n.Sel.Name {
 				case "Mutex", "RWMutex", "Map", "WaitGroup", "Once", "Cond", "NewCond":
@@ -334,6 +342,12 @@ func (in *instr) rewrite() ([]byte, error) {
 		return nil, err
 	}
 	return buf.Bytes(), nil
+}
+
+// timeMap: functions and types of package time that the runtime virtualises.
+var timeMap = map[string]string{
+	"Sleep": "Sleep", "After": "After", "AfterFunc": "AfterFunc", "NewTimer": "NewTimer", "NewTicker": "NewTicker",
+	"Tick": "TimeTick", "Since": "Since", "Until": "Until", "Timer": "Timer", "Ticker": "Ticker",
 }
 
 func (in *instr) tickStmt() ast.Stmt {
